@@ -4,5 +4,6 @@ CONSTANTS
   NCalls = 2
   NGC = 2
   IncLate = FALSE
+  NoCountRecheck = FALSE
   NoRecheck = TRUE
 INVARIANTS NoUseAfterClose InuseExact CurrentOpen NoLeak MutexSane
